@@ -659,8 +659,8 @@ func c19merge(c *Ctx, id string, rng *rand.Rand, bs []*model.Batch) {
 	}
 	mm, _ := model.Merge(ms, drops)
 	bm := zx.Drops(drops, nil)
-	path := c.Scratch.Path("c19m")
-	defer os.Remove(path)
+	path, outDir := outPath(c, "c19m")
+	defer os.RemoveAll(outDir)
 	faiss.SetFaultPlan(nil)
 	faiss.MonitorReset()
 	var calls map[string]int
@@ -694,6 +694,10 @@ func c19merge(c *Ctx, id string, rng *rand.Rand, bs []*model.Batch) {
 				if err != nil {
 					if exists(path) {
 						c.R.Fail("engine-fault-file-left", "%s: Merge failed (%v) but left a file", tag, err)
+					} else if l := listDir(outDir); len(l) > 0 {
+						c.R.Fail("engine-fault-file-left", "%s: Merge failed (%v) but left %v in the output directory", tag, err, l)
+						os.RemoveAll(outDir)
+						os.MkdirAll(outDir, 0755)
 					}
 					c.R.Inc("c19_faults_surfaced", 1)
 					return
